@@ -70,8 +70,36 @@ func parseFile(path string) *ast.File {
 				helpers[fd.Name.Name] = fd
 			}
 		}
+		// `func f(p T) bool { switch p { case A, B: return true }; return false }` is `return p == A || p == B`
+		if fd, ok := d.(*ast.FuncDecl); ok && fd.Recv == nil && fd.Body != nil && len(fd.Body.List) == 2 {
+			sw, ok1 := fd.Body.List[0].(*ast.SwitchStmt)
+			ret, ok2 := fd.Body.List[1].(*ast.ReturnStmt)
+			if ok1 && ok2 && sw.Init == nil && sw.Tag != nil && len(ret.Results) == 1 && isIdentNamed(ret.Results[0], "false") &&
+				len(sw.Body.List) == 1 {
+				if cc, ok := sw.Body.List[0].(*ast.CaseClause); ok && cc.List != nil && len(cc.Body) == 1 {
+					if r2, ok := cc.Body[0].(*ast.ReturnStmt); ok && len(r2.Results) == 1 && isIdentNamed(r2.Results[0], "true") {
+						var cond ast.Expr
+						for _, v := range cc.List {
+							eq := &ast.BinaryExpr{X: sw.Tag, OpPos: v.Pos(), Op: token.EQL, Y: v}
+							if cond == nil {
+								cond = eq
+							} else {
+								cond = &ast.BinaryExpr{X: cond, OpPos: v.Pos(), Op: token.LOR, Y: eq}
+							}
+						}
+						helpers[fd.Name.Name] = &ast.FuncDecl{Name: fd.Name, Type: fd.Type,
+							Body: &ast.BlockStmt{List: []ast.Stmt{&ast.ReturnStmt{Return: ret.Return, Results: []ast.Expr{cond}}}}}
+					}
+				}
+			}
+		}
 	}
 	return f
+}
+
+func isIdentNamed(e ast.Expr, name string) bool {
+	id, ok := e.(*ast.Ident)
+	return ok && id.Name == name
 }
 
 // substExpr copies e replacing the identifiers in m; ok=false on any node kind it does not know (fail closed)
@@ -97,8 +125,193 @@ func substExpr(e ast.Expr, m map[string]ast.Expr) (ast.Expr, bool) {
 	case *ast.SelectorExpr:
 		a, ok := substExpr(x.X, m)
 		return &ast.SelectorExpr{X: a, Sel: x.Sel}, ok
+	case *ast.CallExpr:
+		fn, ok := substExpr(x.Fun, m)
+		args := make([]ast.Expr, len(x.Args))
+		for i, a := range x.Args {
+			var ok2 bool
+			args[i], ok2 = substExpr(a, m)
+			ok = ok && ok2
+		}
+		return &ast.CallExpr{Fun: fn, Lparen: x.Lparen, Args: args, Ellipsis: x.Ellipsis, Rparen: x.Rparen}, ok
+	case *ast.CompositeLit:
+		ok := true
+		elts := make([]ast.Expr, len(x.Elts))
+		for i, a := range x.Elts {
+			var ok2 bool
+			elts[i], ok2 = substExpr(a, m)
+			ok = ok && ok2
+		}
+		return &ast.CompositeLit{Type: x.Type, Lbrace: x.Lbrace, Elts: elts, Rbrace: x.Rbrace}, ok
+	case *ast.KeyValueExpr:
+		v, ok := substExpr(x.Value, m)
+		return &ast.KeyValueExpr{Key: x.Key, Colon: x.Colon, Value: v}, ok
+	case *ast.IndexExpr:
+		a, ok1 := substExpr(x.X, m)
+		i, ok2 := substExpr(x.Index, m)
+		return &ast.IndexExpr{X: a, Lbrack: x.Lbrack, Index: i, Rbrack: x.Rbrack}, ok1 && ok2
+	case *ast.SliceExpr:
+		a, ok := substExpr(x.X, m)
+		lo, hi := x.Low, x.High
+		if lo != nil {
+			var ok2 bool
+			lo, ok2 = substExpr(lo, m)
+			ok = ok && ok2
+		}
+		if hi != nil {
+			var ok2 bool
+			hi, ok2 = substExpr(hi, m)
+			ok = ok && ok2
+		}
+		return &ast.SliceExpr{X: a, Lbrack: x.Lbrack, Low: lo, High: hi, Max: x.Max, Slice3: x.Slice3, Rbrack: x.Rbrack}, ok && x.Max == nil
+	case *ast.StarExpr:
+		a, ok := substExpr(x.X, m)
+		return &ast.StarExpr{Star: x.Star, X: a}, ok
 	}
 	return e, false
+}
+
+// substStmt copies a statement replacing the identifiers in m inside its expressions
+func substStmt(st ast.Stmt, m map[string]ast.Expr) (ast.Stmt, bool) {
+	switch x := st.(type) {
+	case nil:
+		return nil, true
+	case *ast.ExprStmt:
+		e, ok := substExpr(x.X, m)
+		return &ast.ExprStmt{X: e}, ok
+	case *ast.ReturnStmt:
+		ok := true
+		rs := make([]ast.Expr, len(x.Results))
+		for i, r := range x.Results {
+			var ok2 bool
+			rs[i], ok2 = substExpr(r, m)
+			ok = ok && ok2
+		}
+		return &ast.ReturnStmt{Return: x.Return, Results: rs}, ok
+	case *ast.AssignStmt:
+		ok := true
+		l := make([]ast.Expr, len(x.Lhs))
+		r := make([]ast.Expr, len(x.Rhs))
+		for i, e := range x.Lhs {
+			var ok2 bool
+			l[i], ok2 = substExpr(e, m)
+			ok = ok && ok2
+		}
+		for i, e := range x.Rhs {
+			var ok2 bool
+			r[i], ok2 = substExpr(e, m)
+			ok = ok && ok2
+		}
+		return &ast.AssignStmt{Lhs: l, TokPos: x.TokPos, Tok: x.Tok, Rhs: r}, ok
+	case *ast.BlockStmt:
+		l, ok := substStmts(x.List, m)
+		return &ast.BlockStmt{Lbrace: x.Lbrace, List: l, Rbrace: x.Rbrace}, ok
+	case *ast.IfStmt:
+		if x.Init != nil {
+			return st, false
+		}
+		c, ok1 := substExpr(x.Cond, m)
+		b, ok2 := substStmt(x.Body, m)
+		e, ok3 := substStmt(x.Else, m)
+		out := &ast.IfStmt{If: x.If, Cond: c, Body: b.(*ast.BlockStmt)}
+		if e != nil {
+			out.Else = e
+		}
+		return out, ok1 && ok2 && ok3
+	case *ast.SwitchStmt:
+		if x.Init != nil {
+			return st, false
+		}
+		var tag ast.Expr
+		ok := true
+		if x.Tag != nil {
+			tag, ok = substExpr(x.Tag, m)
+		}
+		b, ok2 := substStmt(x.Body, m)
+		return &ast.SwitchStmt{Switch: x.Switch, Tag: tag, Body: b.(*ast.BlockStmt)}, ok && ok2
+	case *ast.CaseClause:
+		ok := true
+		var l []ast.Expr
+		if x.List != nil {
+			l = make([]ast.Expr, len(x.List))
+			for i, e := range x.List {
+				var ok2 bool
+				l[i], ok2 = substExpr(e, m)
+				ok = ok && ok2
+			}
+		}
+		b, ok2 := substStmts(x.Body, m)
+		return &ast.CaseClause{Case: x.Case, List: l, Colon: x.Colon, Body: b}, ok && ok2
+	case *ast.BranchStmt, *ast.EmptyStmt:
+		return st, true
+	}
+	return st, false
+}
+
+func substStmts(l []ast.Stmt, m map[string]ast.Expr) ([]ast.Stmt, bool) {
+	out := make([]ast.Stmt, len(l))
+	ok := true
+	for i, st := range l {
+		var ok2 bool
+		out[i], ok2 = substStmt(st, m)
+		ok = ok && ok2
+	}
+	return out, ok
+}
+
+// pureSelector: a.b.c over identifiers (no calls, no indexing)
+func pureSelector(e ast.Expr) bool {
+	switch x := e.(type) {
+	case *ast.Ident:
+		return true
+	case *ast.SelectorExpr:
+		return pureSelector(x.X)
+	}
+	return false
+}
+
+// inlineAliases removes the top-level statements `x := a.b.c` (a name for a field path, assigned once) and writes
+// the path wherever x is used afterwards; a body it cannot copy faithfully is returned unchanged
+func inlineAliases(body []ast.Stmt) []ast.Stmt {
+	// a name that is assigned more than once anywhere in the body is not an alias
+	assigned := map[string]int{}
+	for _, st := range body {
+		ast.Inspect(st, func(n ast.Node) bool {
+			if as, ok := n.(*ast.AssignStmt); ok {
+				for _, l := range as.Lhs {
+					if id, ok := l.(*ast.Ident); ok {
+						assigned[id.Name]++
+					}
+				}
+			}
+			return true
+		})
+	}
+	m := map[string]ast.Expr{}
+	out := []ast.Stmt{}
+	for _, st := range body {
+		if as, ok := st.(*ast.AssignStmt); ok && as.Tok == token.DEFINE && len(as.Lhs) == 1 && len(as.Rhs) == 1 {
+			if id, ok := as.Lhs[0].(*ast.Ident); ok && assigned[id.Name] == 1 {
+				if se, ok := as.Rhs[0].(*ast.SelectorExpr); ok && pureSelector(se) {
+					rhs, ok := substExpr(se, m)
+					if !ok {
+						return body
+					}
+					m[id.Name] = rhs
+					continue
+				}
+			}
+		}
+		ns, ok := substStmt(st, m)
+		if !ok {
+			return body
+		}
+		out = append(out, ns)
+	}
+	if len(m) == 0 {
+		return body
+	}
+	return out
 }
 
 // inlineHelper: `f(a, b)` for a helper `func f(p, q T) bool { return E }` is E[p:=a, q:=b]
@@ -492,7 +705,7 @@ func extractCheckBinary(f *ast.File) []binRule {
 	fd := findFunc(f, "checkBinaryExpr")
 	ps := paramNames(fd, 2)
 	recv, info := ps[0], ps[1]
-	body := fd.Body.List
+	body := inlineAliases(fd.Body.List)
 	if len(body) != 4 {
 		failf(fd, "checkBinaryExpr: expected 4 statements (two checkExpression calls, one if chain, return), found %d", len(body))
 	}
@@ -578,7 +791,7 @@ func extractCheckUnary(f *ast.File) []unRule {
 	fd := findFunc(f, "checkUnaryExpr")
 	ps := paramNames(fd, 2)
 	recv, info := ps[0], ps[1]
-	body := fd.Body.List
+	body := inlineAliases(fd.Body.List)
 	if len(body) != 3 {
 		failf(fd, "checkUnaryExpr: expected 3 statements, found %d", len(body))
 	}
@@ -651,7 +864,7 @@ func extractCheckReturn(f *ast.File) []retRule {
 	fd := findFunc(f, "checkReturn")
 	ps := paramNames(fd, 2)
 	recv, info := ps[0], ps[1]
-	body := fd.Body.List
+	body := inlineAliases(fd.Body.List)
 	if len(body) != 4 {
 		failf(fd, "checkReturn: expected 4 statements, found %d", len(body))
 	}
@@ -674,42 +887,87 @@ func extractCheckReturn(f *ast.File) []retRule {
 	if !returnsIdent(body[3], V) {
 		failf(body[3], "checkReturn: expected `return %s`", V)
 	}
+	// The arms are read SEMANTICALLY: for every (context, type) the first arm whose condition holds decides between
+	// "error" (sets PTERROR and a message) and "ok" (sets PTOK); however the conditions are written (negations, De Morgan,
+	// helper predicates, arms in another order), the same decisions give the same rules.
 	arms := chain(ifs)
-	last := arms[len(arms)-1]
-	if last.cond != nil || len(last.body.List) != 1 {
-		failf(last.node, "checkReturn: expected a final `else { %s.currentType = PTOK }`", V)
-	}
-	if e, ok := assignField(last.body.List[0], V, "currentType"); !ok {
-		failf(last.node, "checkReturn: expected a final `else { %s.currentType = PTOK }`", V)
-	} else if n, ok := identName(e); !ok || n != "PTOK" {
-		failf(last.node, "checkReturn: expected a final `else { %s.currentType = PTOK }`", V)
-	}
-	rules := []retRule{}
-	for _, a := range arms[:len(arms)-1] {
-		if !isErrorBody(a.body, V) {
-			failf(a.body, "checkReturn: expected an arm that sets PTERROR and a message")
+	isOkBody := func(b *ast.BlockStmt) bool {
+		if len(b.List) != 1 {
+			return false
 		}
-		r := retRule{}
-		for _, c := range splitBin(a.cond, token.LAND) {
-			if n, ok := cmpConst(c, token.EQL, isSel(V, "context"), ""); ok {
-				if r.ctx != "" {
-					failf(c, "checkReturn: two context conditions")
+		e, ok := assignField(b.List[0], V, "currentType")
+		if !ok {
+			return false
+		}
+		n, ok := identName(e)
+		return ok && n == "PTOK"
+	}
+	for _, a := range arms {
+		if !isErrorBody(a.body, V) && !isOkBody(a.body) {
+			failf(a.body, "checkReturn: expected an arm that sets PTERROR and a message, or PTOK")
+		}
+	}
+	var evalCond func(e ast.Expr, ctx, typ string) bool
+	evalCond = func(e ast.Expr, ctx, typ string) bool {
+		e = unparen(e)
+		if in, ok := inlineHelper(e); ok {
+			return evalCond(in, ctx, typ)
+		}
+		switch x := e.(type) {
+		case *ast.UnaryExpr:
+			if x.Op == token.NOT {
+				return !evalCond(x.X, ctx, typ)
+			}
+		case *ast.BinaryExpr:
+			switch x.Op {
+			case token.LAND:
+				return evalCond(x.X, ctx, typ) && evalCond(x.Y, ctx, typ)
+			case token.LOR:
+				return evalCond(x.X, ctx, typ) || evalCond(x.Y, ctx, typ)
+			case token.EQL, token.NEQ:
+				for _, fld := range []struct{ name, val string }{{"context", ctx}, {"currentType", typ}} {
+					if n, ok := cmpConst(x, x.Op, isSel(V, fld.name), ""); ok {
+						if fld.name == "context" {
+							if _, known := contexts[n]; !known {
+								failf(x, "checkReturn: unknown context %s", n)
+							}
+						} else if _, known := procTypes[n]; !known && n != "PTOK" && n != "PTERROR" {
+							failf(x, "checkReturn: unknown type constant %s", n)
+						}
+						return (n == fld.val) == (x.Op == token.EQL)
+					}
 				}
-				l, ok := contexts[n]
-				if !ok {
-					failf(c, "checkReturn: unknown context %s", n)
-				}
-				r.ctx = l
-			} else if n, ok := cmpConst(c, token.NEQ, isSel(V, "currentType"), ""); ok {
-				r.allowed = append(r.allowed, leanType(c, n))
-			} else {
-				failf(c, "checkReturn: unrecognised condition %s", src(c))
 			}
 		}
-		if r.ctx == "" || len(r.allowed) == 0 {
-			failf(a.node, "checkReturn: arm needs a context and at least one `currentType != …`")
+		failf(e, "checkReturn: unrecognised condition %s", src(e))
+		return false
+	}
+	rules := []retRule{}
+	for _, ctx := range []string{"PREDICATE", "TRANSFORMATION"} {
+		allowed := []string{}
+		rejected := 0
+		for _, typ := range []string{"PTSTRING", "PTNUMBER", "PTBOOLEAN"} {
+			okOutcome := false
+			decided := false
+			for _, a := range arms {
+				if a.cond == nil || evalCond(a.cond, ctx, typ) {
+					okOutcome = isOkBody(a.body)
+					decided = true
+					break
+				}
+			}
+			if !decided {
+				failf(ifs, "checkReturn: no arm decides (%s, %s): the type would stay as it is", ctx, typ)
+			}
+			if okOutcome {
+				allowed = append(allowed, procTypes[typ])
+			} else {
+				rejected++
+			}
 		}
-		rules = append(rules, r)
+		if rejected > 0 {
+			rules = append(rules, retRule{ctx: contexts[ctx], allowed: allowed})
+		}
 	}
 	return rules
 }
@@ -815,7 +1073,7 @@ func extractExecBinary(f *ast.File) ([]evalCell, []elsePanic) {
 	fd := findFunc(f, "executeBinaryExpr")
 	ps := paramNames(fd, 2)
 	recv, state := ps[0], ps[1]
-	body := fd.Body.List
+	body := inlineAliases(fd.Body.List)
 	if len(body) != 5 {
 		failf(fd, "executeBinaryExpr: expected 5 statements, found %d", len(body))
 	}
@@ -990,7 +1248,7 @@ func extractExecUnary(f *ast.File) []unCell {
 	fd := findFunc(f, "executeUnaryExpression")
 	ps := paramNames(fd, 2)
 	recv, state := ps[0], ps[1]
-	body := fd.Body.List
+	body := inlineAliases(fd.Body.List)
 	if len(body) != 3 {
 		failf(fd, "executeUnaryExpression: expected 3 statements, found %d", len(body))
 	}
@@ -998,15 +1256,15 @@ func extractExecUnary(f *ast.File) []unCell {
 	if fld != "Expr" {
 		failf(body[0], "executeUnaryExpression: expected %s.Expr to be evaluated", recv)
 	}
-	ifs, ok := body[1].(*ast.IfStmt)
+	unArms, ok := stmtChain(body[1])
 	if !ok {
-		failf(body[1], "executeUnaryExpression: expected an if chain over the operator")
+		failf(body[1], "executeUnaryExpression: expected an if chain (or switch) over the operator")
 	}
 	if !returnsIdent(body[2], E) {
 		failf(body[2], "executeUnaryExpression: expected `return %s`", E)
 	}
 	cells := []unCell{}
-	for _, a := range chain(ifs) {
+	for _, a := range unArms {
 		if a.cond == nil {
 			failf(a.node, "executeUnaryExpression: an else branch is not recognised")
 		}
@@ -1141,7 +1399,7 @@ type precArm struct {
 func extractPrec(f *ast.File, name string, arity int) ([]precArm, []int) {
 	fd := findFunc(f, name)
 	p := paramNames(fd, 1)[0]
-	body := fd.Body.List
+	body := inlineAliases(fd.Body.List)
 	if len(body) != 2 {
 		failf(fd, "%s: expected an if chain and a default return", name)
 	}
